@@ -220,6 +220,15 @@ impl C06 {
         let mut rules = Vec::new();
         let mut data = Vec::new();
         for (i, p) in wl.progs.iter().enumerate() {
+            let mut p = p.clone();
+            if r.chance(1, 5) {
+                // a rules file whose every rule SKIPs (guard on a key no document has)
+                for rule in p.rules.iter_mut() {
+                    rule.when.insert(0, crate::rules::Line { alts: vec![crate::rules::Clause::Cmp(crate::rules::Cmp { not: false, q: crate::rules::Query { some: false, parts: vec![crate::rules::Part::Key("zz_never_there".into())] }, op: crate::rules::Op::Exists, opnot: false, rhs: None, msg: None })] });
+                }
+                p.default_lines.clear();
+                rep.count("gen.rules_all_skip", 1);
+            }
             let mut bytes = p.print().into_bytes();
             match r.below(12) {
                 0 | 1 => {
